@@ -155,6 +155,8 @@ def polyroots(ctx, coeffs, maxsteps=50, cleanup=True, extraprec=10,
         if not coeffs or not coeffs[0]:
             raise ValueError("Input to polyroots must not be the zero polynomial")
         # Constant polynomial with no roots
+        if error:
+            return [], ctx.zero
         return []
 
     orig = ctx.prec
